@@ -1,15 +1,25 @@
 // harness/C09/h_misc.cpp — oracle-level drivers (no model): Bandit::ESRLPolicy phase machine,
 // Bandit::SuccessiveRejectsPolicy, Bandit::RandomPolicy.  After every update the table, the
 // per-action queries and one sampled action are printed.
+// ESRLPolicy samples through a private LRPPolicy member that owns its own engine: this TU is compiled
+// with private/protected opened AFTER the standard / boost / Eigen headers.
 #include <algorithm>
 #include <numeric>
 #include <cmath>
+#include <vector>
+#include <random>
+#include <stdexcept>
+#include <AIToolbox/Types.hpp>
+#include "vio.hpp"
+#define private public
+#define protected public
 #include <AIToolbox/Seeder.hpp>
 #include <AIToolbox/Bandit/Experience.hpp>
 #include <AIToolbox/Bandit/Policies/ESRLPolicy.hpp>
 #include <AIToolbox/Bandit/Policies/SuccessiveRejectsPolicy.hpp>
 #include <AIToolbox/Bandit/Policies/RandomPolicy.hpp>
-#include "vio.hpp"
+#undef private
+#undef protected
 
 using namespace AIToolbox;
 
@@ -29,13 +39,37 @@ void c09_misc(const std::string & kind, vio::Cursor & c, vio::Out & o) {
         const size_t A = c.nextSize();
         const double a = c.nextDouble();
         const unsigned N = (unsigned) c.nextSize(), phases = (unsigned) c.nextSize(), window = (unsigned) c.nextSize();
+        // ops: "u act res" = stepUpdateP; setters "a v" setAParam, "t n" setTimesteps,
+        //      "e n" setExplorationPhases, "w n" setWindowSize
         const size_t nops = c.nextSize();
-        std::vector<std::pair<size_t, bool>> ops;
-        for (size_t k = 0; k < nops; ++k) { size_t act = c.nextSize(); bool r = c.nextSize() != 0; ops.emplace_back(act, r); }
+        struct Op { char k; size_t n; bool res; double v; };
+        std::vector<Op> ops;
+        for (size_t k = 0; k < nops; ++k) {
+            const std::string t = c.next();
+            Op op{t[0], 0, false, 0.0};
+            if (t == "u") { op.n = c.nextSize(); op.res = c.nextSize() != 0; }
+            else if (t == "a") op.v = c.nextDouble();
+            else op.n = c.nextSize();
+            ops.push_back(op);
+        }
         Seeder::setRootSeed((unsigned) c.nextSize());
         Bandit::ESRLPolicy p(A, a, N, phases, window);
-        dumpAll(o, p, A);
-        for (auto [act, r] : ops) { p.stepUpdateP(act, r); dumpAll(o, p, A); o << p.isExploiting(); }
+        auto peek = [&]() {                               // the draw lri_.sampleAction() is about to make
+            RandomEngine cpy = p.lri_.rand_;
+            std::uniform_real_distribution<double> pd(0.0, 1.0);
+            return pd(cpy);
+        };
+        o << peek(); dumpAll(o, p, A);
+        for (const auto & op : ops) {
+            switch (op.k) {
+                case 'u': p.stepUpdateP(op.n, op.res); break;
+                case 'a': p.setAParam(op.v); break;
+                case 't': p.setTimesteps((unsigned) op.n); break;
+                case 'e': p.setExplorationPhases((unsigned) op.n); break;
+                default:  p.setWindowSize((unsigned) op.n); break;
+            }
+            o << peek(); dumpAll(o, p, A); o << p.isExploiting() << p.getAParam();
+        }
     } else if (kind == "sr") {
         const size_t A = c.nextSize();
         const unsigned budget = (unsigned) c.nextSize();
@@ -43,13 +77,14 @@ void c09_misc(const std::string & kind, vio::Cursor & c, vio::Out & o) {
         Seeder::setRootSeed((unsigned) c.nextSize());
         Bandit::Experience exp(A);
         Bandit::SuccessiveRejectsPolicy p(exp, budget);
-        dumpAll(o, p, A);
+        dumpAll(o, p, A); o << p.getCurrentPhase() << p.getCurrentNk(); o.list(p.availableActions_);
         for (double r : rews) {
             const size_t a = p.sampleAction();
             exp.record(a, r);
+            o.list(exp.getRewardMatrix());          // the means stepUpdateQ is about to read
             p.stepUpdateQ();
             dumpAll(o, p, A);
-            o << p.getCurrentPhase();
+            o << p.getCurrentPhase() << p.getCurrentNk() << p.canRecommendAction(); o.list(p.availableActions_);
         }
     } else {                                            // rnd
         const size_t A = c.nextSize();
